@@ -54,7 +54,10 @@ pub fn run_many<Out: Send>(
           std::thread::Builder::new()
             .stack_size(cfg.stack_bytes)
             .name(format!("simrun-{i}"))
-            .spawn_scoped(inner, || run(i))
+            .spawn_scoped(inner, || {
+              crate::hashseed::mark_run_thread();
+              run(i)
+            })
             .expect("spawn run thread")
             .join()
         });
